@@ -1,4 +1,445 @@
-//! C07 — stub, not built yet.
+//! C07 — binary construction is the inverse of binary parsing.
+//! Correspondence: `C07 <field>* / <group size>* @<base>` (see lean/XehModel/Driver/C07.lean): a record is
+//! packed with the construction words (pieces collected in a vector, `>bitstr`), parsed back with the
+//! matching read words through `Xstate::eval`, and — on a fresh interpreter with output interception on —
+//! emitted group by group for a split of the field list.
+//! Oracle (implementation only, fields inside the claimed domain): length = Σ widths, parsed values =
+//! original values reduced to the width (computed with Rust integer/float primitives), remain = 0,
+//! output = the same bits, output-length = their number, for every split position.
+use super::c06::{bits_str, bits_vec, embed, observe};
+use super::gen::*;
+use crate::canon;
 use crate::Ctx;
+use xeh::prelude::*;
 
-pub fn run(_ctx: &mut Ctx) {}
+#[derive(Clone, Copy, PartialEq)]
+enum Form {
+    Generic,
+    FixedBo,
+    FixedCur,
+}
+
+#[derive(Clone)]
+enum Field {
+    Int { w: usize, signed: bool, big: bool, form: Form, v: i128 },
+    Flt { w: usize, big: bool, form: Form, x: f64 },
+    Raw(Vec<bool>, usize),
+    Str(String),
+    Bytes(Vec<i128>),
+    Cstr(Vec<u8>),
+}
+
+enum Step {
+    Push(Cell),
+    Word(String),
+}
+
+fn bo(big: bool) -> Step {
+    Step::Word(if big { "big" } else { "little" }.into())
+}
+
+fn int_vec(l: impl Iterator<Item = i128>) -> Cell {
+    let mut v = Xvec::new();
+    for b in l {
+        v.push_back_mut(Cell::Int(b));
+    }
+    Cell::Vector(v)
+}
+
+impl Field {
+    fn token(&self) -> String {
+        let fm = |f: &Form| match f { Form::Generic => "g", Form::FixedBo => "f", Form::FixedCur => "c" };
+        match self {
+            Field::Int { w, signed, big, form, v } => format!("i:{}:{}:{}:{}:{}", w, if *signed { "s" } else { "u" }, if *big { "b" } else { "l" }, fm(form), v),
+            Field::Flt { w, big, form, x } => format!("r:{}:{}:{}:{:016x}", w, if *big { "b" } else { "l" }, fm(form), x.to_bits()),
+            Field::Raw(b, _) => format!("b:{}", &bits_str(b)[1..]),
+            Field::Str(s) => format!("s:{}", canon::hex(s.as_bytes())),
+            Field::Bytes(l) => format!("y:{}", l.iter().map(|b| b.to_string()).collect::<Vec<_>>().join(",")),
+            Field::Cstr(l) => format!("z:{}", canon::hex(l)),
+        }
+    }
+
+    fn pack(&self, r: &mut crate::rng::Rng) -> Vec<Step> {
+        match self {
+            Field::Int { w, signed, big, form, v } => {
+                let p = if *signed { "i" } else { "u" };
+                match form {
+                    Form::Generic => vec![bo(*big), Step::Push(Cell::Int(*v)), Step::Push(Cell::Int(*w as i128)), Step::Word(format!("{}!", if *signed { "int" } else { "uint" }))],
+                    Form::FixedBo => vec![Step::Push(Cell::Int(*v)), Step::Word(format!("{}{}{}!", p, w, if *big { "be" } else { "le" }))],
+                    Form::FixedCur => vec![bo(*big), Step::Push(Cell::Int(*v)), Step::Word(format!("{}{}!", p, w))],
+                }
+            }
+            Field::Flt { w, big, form, x } => match form {
+                Form::Generic => vec![bo(*big), Step::Push(Cell::Real(*x)), Step::Push(Cell::Int(*w as i128)), Step::Word("float!".into())],
+                Form::FixedBo => vec![Step::Push(Cell::Real(*x)), Step::Word(format!("f{}{}!", w, if *big { "be" } else { "le" }))],
+                Form::FixedCur => vec![bo(*big), Step::Push(Cell::Real(*x)), Step::Word(format!("f{}!", w))],
+            },
+            Field::Raw(b, pre) => vec![Step::Push(Cell::Bitstr(embed(r, b, *pre, 0)))],
+            Field::Str(s) => vec![Step::Push(Cell::from(s.clone()))],
+            Field::Bytes(l) => vec![Step::Push(int_vec(l.iter().cloned()))],
+            Field::Cstr(l) => vec![Step::Push(int_vec(l.iter().map(|b| *b as i128).chain(std::iter::once(0))))],
+        }
+    }
+
+    fn parse(&self) -> Vec<Step> {
+        match self {
+            Field::Int { w, signed, big, form, .. } => {
+                let p = if *signed { "i" } else { "u" };
+                match form {
+                    Form::Generic => vec![bo(*big), Step::Push(Cell::Int(*w as i128)), Step::Word(if *signed { "int" } else { "uint" }.into())],
+                    Form::FixedBo => vec![Step::Word(format!("{}{}{}", p, w, if *big { "be" } else { "le" }))],
+                    Form::FixedCur => vec![bo(*big), Step::Word(format!("{}{}", p, w))],
+                }
+            }
+            Field::Flt { w, big, form, .. } => match form {
+                Form::Generic => vec![bo(*big), Step::Push(Cell::Int(*w as i128)), Step::Word("float".into())],
+                Form::FixedBo => vec![Step::Word(format!("f{}{}", w, if *big { "be" } else { "le" }))],
+                Form::FixedCur => vec![bo(*big), Step::Word(format!("f{}", w))],
+            },
+            Field::Raw(b, _) => vec![Step::Push(Cell::Int(b.len() as i128)), Step::Word("bits".into())],
+            Field::Str(s) => vec![Step::Push(Cell::Int(s.len() as i128)), Step::Word("bytes".into())],
+            Field::Bytes(l) => vec![Step::Push(Cell::Int(l.len() as i128)), Step::Word("bytes".into())],
+            Field::Cstr(_) => vec![Step::Word("cstr".into())],
+        }
+    }
+
+    /// inside the domain of the round-trip claim
+    fn in_domain(&self) -> bool {
+        match self {
+            Field::Int { w, signed, .. } => *w >= 1 && *w <= if *signed { 128 } else { 127 },
+            Field::Flt { w, .. } => *w == 32 || *w == 64,
+            Field::Bytes(l) => l.iter().all(|b| (0..256).contains(b)),
+            Field::Cstr(l) => l.iter().all(|b| *b != 0),
+            _ => true,
+        }
+    }
+
+    fn width(&self) -> usize {
+        match self {
+            Field::Int { w, .. } => *w,
+            Field::Flt { w, .. } => *w,
+            Field::Raw(b, _) => b.len(),
+            Field::Str(s) => 8 * s.len(),
+            Field::Bytes(l) => 8 * l.len(),
+            Field::Cstr(l) => 8 * (l.len() + 1),
+        }
+    }
+
+    /// the value the read word must return — computed with Rust primitives only
+    fn expected(&self) -> Cell {
+        let tags = |w: usize, big: bool| {
+            let mut m = Xmap::new();
+            m.insert_mut(Cell::from("len"), Cell::Int(w as i128));
+            if big {
+                m.insert_mut(Cell::from("big"), Cell::Flag(true));
+            }
+            m
+        };
+        match self {
+            Field::Int { w, signed, big, v, .. } => {
+                let mask = if *w >= 128 { u128::MAX } else { (1u128 << w) - 1 };
+                let u = (*v as u128) & mask;
+                let x = if *signed && *w < 128 && (u >> (w - 1)) & 1 == 1 { (u | !mask) as i128 } else { u as i128 };
+                Cell::Int(x).with_tags(tags(*w, *big))
+            }
+            Field::Flt { w, big, x, .. } => Cell::Real(if *w == 32 { (*x as f32) as f64 } else { *x }).with_tags(tags(*w, *big)),
+            Field::Raw(b, _) => Cell::Bitstr(bitstr_from_bits(b)),
+            Field::Str(s) => Cell::Bitstr(Xbitstr::from(s.clone().into_bytes())),
+            Field::Bytes(l) => Cell::Bitstr(Xbitstr::from(l.iter().map(|b| *b as u8).collect::<Vec<u8>>())),
+            Field::Cstr(l) => Cell::from(l.iter().map(|b| *b as char).collect::<String>()),
+        }
+    }
+
+    /// the bits the field must occupy, from Rust's own byte layouts where one exists
+    fn expected_bits(&self) -> Option<Vec<bool>> {
+        let bytes_bits = |by: &[u8]| by.iter().flat_map(|b| (0..8).rev().map(move |k| (b >> k) & 1 == 1)).collect::<Vec<bool>>();
+        match self {
+            Field::Int { w, big, v, .. } if *w % 8 == 0 && *w > 0 && *w <= 128 => {
+                let n = w / 8;
+                Some(if *big { bytes_bits(&v.to_be_bytes()[16 - n..]) } else { bytes_bits(&v.to_le_bytes()[..n]) })
+            }
+            Field::Flt { w: 64, big, x, .. } => Some(bytes_bits(&if *big { x.to_be_bytes() } else { x.to_le_bytes() })),
+            Field::Flt { w: 32, big, x, .. } => Some(bytes_bits(&if *big { (*x as f32).to_be_bytes() } else { (*x as f32).to_le_bytes() })),
+            Field::Raw(b, _) => Some(b.clone()),
+            Field::Str(s) => Some(bytes_bits(s.as_bytes())),
+            _ => None,
+        }
+    }
+}
+
+fn exec(xs: &mut Xstate, steps: Vec<Step>) -> Result<(), String> {
+    for s in steps {
+        match s {
+            Step::Push(c) => xs.push_data(c).map_err(|e| format!("err:{}", canon::err(&e)))?,
+            Step::Word(w) => match crate::guarded(|| xs.eval(&w)) {
+                None => return Err("panic".into()),
+                Some(Err(e)) => return Err(format!("err:{}", canon::err(&e))),
+                Some(Ok(())) => {}
+            },
+        }
+    }
+    Ok(())
+}
+
+/// pieces of the fields, left to right, on one interpreter
+fn pieces(xs: &mut Xstate, r: &mut crate::rng::Rng, fs: &[Field]) -> Result<Xvec, String> {
+    let mut v = Xvec::new();
+    for f in fs {
+        exec(xs, f.pack(r))?;
+        let c = xs.pop_data().map_err(|e| format!("err:{}", canon::err(&e)))?;
+        v.push_back_mut(c);
+    }
+    Ok(v)
+}
+
+fn cells_str(cells: &[Cell]) -> String {
+    cells.iter().map(|c| canon::cell(c)).collect::<Vec<_>>().join(" ")
+}
+
+struct PackParse {
+    p: String,
+    v: String,
+    base: usize,
+    packed: Option<Vec<bool>>,
+    values: Option<(Vec<Cell>, i128, i128)>,
+}
+
+fn pack_parse(base_xs: &Xstate, r: &mut crate::rng::Rng, fs: &[Field]) -> PackParse {
+    let mut xs = base_xs.clone();
+    let packed: Result<Xbitstr, String> = (|| {
+        let v = pieces(&mut xs, r, fs)?;
+        exec(&mut xs, vec![Step::Push(Cell::Vector(v)), Step::Word(">bitstr".into())])?;
+        match xs.pop_data() {
+            Ok(Cell::Bitstr(b)) => Ok(b),
+            _ => Err("err:InternalError".into()),
+        }
+    })();
+    match packed {
+        Err(e) => PackParse { p: format!("P {}", e), v: "V -".into(), base: 0, packed: None, values: None },
+        Ok(b) => {
+            let bits = bits_vec(&b);
+            let base = b.start();
+            while xs.data_depth() > 0 {
+                let _ = xs.pop_data();
+            }
+            let mut steps = vec![Step::Push(Cell::Bitstr(b)), Step::Word("open-bitstr".into())];
+            for f in fs {
+                steps.extend(f.parse());
+            }
+            let res = exec(&mut xs, steps);
+            let (v, values) = match observe(&mut xs) {
+                Some(o) => {
+                    let cells = cells_str(&o.stack);
+                    let st = match &res { Ok(()) => "ok".to_string(), Err(e) => e.clone() };
+                    let line = format!("V {}{} R{} @{}", st, if cells.is_empty() { "".to_string() } else { format!(" {}", cells) }, o.remain.map(|x| x.to_string()).unwrap_or("?".into()), o.rel());
+                    let vals = if res.is_ok() { Some((o.stack.clone(), o.remain.unwrap_or(-1), o.rel())) } else { None };
+                    (line, vals)
+                }
+                None => ("V panic".to_string(), None),
+            };
+            PackParse { p: format!("P ok {}", bits_str(&bits)), v, base, packed: Some(bits), values }
+        }
+    }
+}
+
+fn emit_split(base_xs: &Xstate, r: &mut crate::rng::Rng, fs: &[Field], sizes: &[usize]) -> (String, Option<(Cell, Cell)>) {
+    let mut xs = base_xs.clone();
+    xs.intercept_output(true).unwrap();
+    let mut groups: Vec<&[Field]> = vec![];
+    let mut rest = fs;
+    for n in sizes {
+        let k = (*n).min(rest.len());
+        groups.push(&rest[..k]);
+        rest = &rest[k..];
+    }
+    groups.push(rest);
+    let res: Result<(), String> = (|| {
+        for g in groups {
+            let v = pieces(&mut xs, r, g)?;
+            exec(&mut xs, vec![Step::Push(Cell::Vector(v)), Step::Word(">bitstr".into()), Step::Word("emit".into())])?;
+        }
+        Ok(())
+    })();
+    match res {
+        Err(e) => (format!("O {}", e), None),
+        Ok(()) => {
+            let _ = crate::guarded(|| {
+                let _ = xs.eval("output");
+                let _ = xs.eval("output-length");
+            });
+            let st = canon::stack(&xs);
+            let n = st.len();
+            let top2: Vec<Cell> = st[n.saturating_sub(2)..].to_vec();
+            let pair = if top2.len() == 2 { Some((top2[0].clone(), top2[1].clone())) } else { None };
+            (format!("O ok {}", cells_str(&top2)), pair)
+        }
+    }
+}
+
+fn gen_field(r: &mut crate::rng::Rng, malformed: bool) -> Field {
+    let form_for = |r: &mut crate::rng::Rng, w: usize| if matches!(w, 8 | 16 | 32 | 64) { *r.pick(&[Form::Generic, Form::FixedBo, Form::FixedCur]) } else { Form::Generic };
+    match r.below(100) {
+        0..=54 => {
+            let signed = r.bool();
+            let mut w = if r.bool() { *r.pick(&[1usize, 2, 3, 4, 7, 8, 8, 9, 12, 15, 16, 16, 17, 24, 31, 32, 32, 33, 48, 63, 64, 64, 65, 96, 120, 126, 127, 128]) } else { 1 + r.below(128) };
+            if !signed && w == 128 {
+                w = 127;
+            }
+            if malformed {
+                w = *r.pick(&[0usize, 128, 129, 130, 136, 200, 256, 300]);
+            }
+            let v = if r.chance(30) {
+                // values that fit the width exactly, near its boundaries
+                let m = if w >= 127 { i128::MAX } else { (1i128 << w) - 1 };
+                *r.pick(&[0, 1, m, m >> 1, (m >> 1) + 1, -1, -(m >> 1) - 1])
+            } else {
+                gen_int(r)
+            };
+            Field::Int { w, signed, big: r.bool(), form: form_for(r, w), v }
+        }
+        55..=66 => {
+            let w = if malformed { *r.pick(&[0usize, 16, 31, 33, 128]) } else if r.bool() { 32 } else { 64 };
+            Field::Flt { w, big: r.bool(), form: if w == 32 || w == 64 { form_for(r, w) } else { Form::Generic }, x: gen_real(r) }
+        }
+        67..=78 => {
+            let max = if r.chance(20) { 140 } else { 19 };
+            let b = gen_bits(r, max);
+            Field::Raw(b, r.below(9))
+        }
+        79..=85 => Field::Str(gen_str(r)),
+        86..=92 => {
+            let mut l: Vec<i128> = (0..r.below(6)).map(|_| (r.next_u64() & 0xff) as i128).collect();
+            if malformed {
+                l.push(*r.pick(&[256i128, 257, 1000, i128::MAX]));
+            }
+            Field::Bytes(l)
+        }
+        _ => {
+            let mut l: Vec<u8> = (0..r.below(6)).map(|_| 1 + (r.next_u64() % 255) as u8).collect();
+            if malformed {
+                let i = r.below(l.len() + 1);
+                l.insert(i, 0);
+            }
+            Field::Cstr(l)
+        }
+    }
+}
+
+fn same_cell(a: &Cell, b: &Cell) -> bool {
+    canon::cell(a) == canon::cell(b)
+}
+
+pub fn run(ctx: &mut Ctx) {
+    let base = Xstate::boot().unwrap();
+    for _ in 0..ctx.n {
+        let nf = match ctx.rng.below(10) { 0 => 0, 1 => 1, _ => 1 + ctx.rng.below(12) };
+        let bad_record = ctx.rng.chance(15);
+        let bad_at = ctx.rng.below(nf.max(1));
+        let fs: Vec<Field> = (0..nf).map(|i| gen_field(&mut ctx.rng, bad_record && i == bad_at)).collect();
+        // cstr/nulbytestr read only when the rest of the input is a whole number of bytes
+        let cstr_ok = (0..fs.len()).all(|i| !matches!(fs[i], Field::Cstr(_)) || fs[i..].iter().map(|f| f.width()).sum::<usize>() % 8 == 0);
+        let in_domain = fs.iter().all(|f| f.in_domain()) && cstr_ok;
+        if !cstr_ok {
+            ctx.tag("record:cstr-with-non-byte-rest");
+        }
+        let toks: Vec<String> = fs.iter().map(|f| f.token()).collect();
+        let expressible = true;
+        let mut rr = ctx.rng.fork();
+        let pp = pack_parse(&base, &mut rr, &fs);
+        for f in &fs {
+            ctx.tag(match f {
+                Field::Int { w, signed, .. } => if *w % 8 == 0 { if *signed { "field:int:signed:byte-multiple" } else { "field:int:unsigned:byte-multiple" } } else if *signed { "field:int:signed:odd-width" } else { "field:int:unsigned:odd-width" },
+                Field::Flt { w: 32, .. } => "field:f32",
+                Field::Flt { .. } => "field:f64",
+                Field::Raw(..) => "field:raw",
+                Field::Str(_) => "field:str",
+                Field::Bytes(_) => "field:bytes",
+                Field::Cstr(_) => "field:cstr",
+            });
+            if let Field::Int { form, .. } | Field::Flt { form, .. } = f {
+                ctx.tag(match form { Form::Generic => "form:generic", Form::FixedBo => "form:fixed-le/be", Form::FixedCur => "form:fixed-current-order" });
+            }
+        }
+        ctx.tag(&format!("record:fields:{}", nf));
+        ctx.tag(if in_domain { "record:in-domain" } else { "record:malformed" });
+        // field start alignments actually exercised
+        let mut at = 0usize;
+        for f in &fs {
+            ctx.tag(&format!("field-start%8={}", at % 8));
+            at += f.width();
+        }
+        // splits: every single split position, plus one random multi-split
+        let mut splits: Vec<Vec<usize>> = (0..=nf).map(|j| vec![j]).collect();
+        let mut multi = vec![];
+        let mut left = nf;
+        while left > 0 && multi.len() < 5 {
+            let k = ctx.rng.below(left + 1);
+            multi.push(k);
+            left -= k;
+        }
+        splits.push(multi);
+        splits.push(vec![]);
+        if !ctx.thorough && nf > 6 {
+            // quick tier: a sample of the single split positions
+            let keep: Vec<usize> = (0..3).map(|_| ctx.rng.below(nf + 1)).collect();
+            splits = splits.into_iter().enumerate().filter(|(i, _)| *i > nf || keep.contains(i) || *i == 0 || *i == nf).map(|(_, s)| s).collect();
+        }
+        let total: usize = fs.iter().map(|f| f.width()).sum();
+        let case0 = format!("C07 {} /", toks.join(" "));
+        // oracle on pack + parse
+        if in_domain {
+            match (&pp.packed, &pp.values) {
+                (Some(bits), Some((vals, remain, rel))) => {
+                    let mut bad = vec![];
+                    if bits.len() != total {
+                        bad.push(format!("length {} is not the sum of the field widths {}", bits.len(), total));
+                    }
+                    let mut at = 0usize;
+                    for f in &fs {
+                        if let Some(eb) = f.expected_bits() {
+                            if at + eb.len() > bits.len() || bits[at..at + eb.len()] != eb[..] {
+                                bad.push(format!("field {} at bit {} is not laid out as {}", f.token(), at, &bits_str(&eb)[1..]));
+                            }
+                        }
+                        at += f.width();
+                    }
+                    let exp: Vec<Cell> = fs.iter().map(|f| f.expected()).collect();
+                    if exp.len() != vals.len() || !exp.iter().zip(vals).all(|(a, b)| same_cell(a, b)) {
+                        bad.push(format!("parsed values differ from the packed ones: expected {}", cells_str(&exp)));
+                    }
+                    // f64 fields must come back bit-exact, NaN payloads included
+                    for (f, v) in fs.iter().zip(vals) {
+                        if let (Field::Flt { w: 64, x, .. }, Cell::Real(y)) = (f, v.value()) {
+                            if x.to_bits() != y.to_bits() {
+                                bad.push(format!("f64 {:016x} came back as {:016x}", x.to_bits(), y.to_bits()));
+                            }
+                        }
+                    }
+                    if *remain != 0 || *rel != total as i128 {
+                        bad.push(format!("remain = {} (offset {}) after parsing the whole record", remain, rel));
+                    }
+                    ctx.check(bad.is_empty(), || case0.clone(), || bad.join("; "), || format!("{} | {}", pp.p, pp.v));
+                }
+                _ => ctx.oracle_fail(case0.clone(), "an in-domain record packs and parses back without error".into(), format!("{} | {}", pp.p, pp.v)),
+            }
+        }
+        for sizes in splits {
+            let (o, pair) = emit_split(&base, &mut rr, &fs, &sizes);
+            let case = format!("C07 {} / {} @{}", toks.join(" "), sizes.iter().map(|n| n.to_string()).collect::<Vec<_>>().join(" "), pp.base);
+            let case = case.replace("  ", " ");
+            ctx.tag(&format!("split:groups:{}", sizes.len() + 1));
+            if in_domain {
+                match (&pp.packed, &pair) {
+                    (Some(bits), Some((out, len))) => {
+                        let ok = matches!(out, Cell::Bitstr(b) if bits_vec(b) == *bits) && matches!(len, Cell::Int(n) if *n == bits.len() as i128);
+                        ctx.check(ok, || case.clone(), || format!("output = the record's bits, output-length = {}", bits.len()), || o.clone());
+                    }
+                    _ => ctx.oracle_fail(case.clone(), "emit of an in-domain record succeeds".into(), o.clone()),
+                }
+            }
+            if expressible {
+                ctx.case(case, format!("{} | {} | {}", pp.p, pp.v, o));
+            }
+        }
+    }
+}
